@@ -13,7 +13,9 @@ RULE = ('gin-machine/bind: configurables with allowlist / denylist / neither, wi
         'and finalize hooks; store compared before/after every rejected op. non-trivial = a rejected binding '
         'through a non-string path (tuple / text / hook) on a configurable that has a list.')
 TRUSTED_BASE = c01.TRUSTED_BASE
-ASSUMPTIONS = ['registered methods (Class.method addressing) are exercised by the C13 engine, not here']
+ASSUMPTIONS = ['registered methods (Class.method addressing) are exercised by the C13 engine and, for methods registered by '
+               'the parser (dynamic registration), by the implementation-only engine dynamic-registration-binds',
+               'positional-only parameter names and self / cls as parameter names: no claim (DESIGN 9.2)']
 
 
 def expected_accept(regs, scope, sel, arg):
@@ -227,4 +229,597 @@ class MethodRenameEngine(Engine):
     return {'obs': T('Done'), 'fails': fails[:3], 'nontrivial': True, 'tags': [case['api']]}
 
 
-ENGINES = [BindEngine(), MethodRenameEngine()]
+# ---------------------------------------------------------------------------------------------------------------------
+# Registration routes the Gin-machine has no input language for: configurables registered BY THE PARSER (dynamic
+# registration: `from __gin__ import dynamic_registration`, `import mod`, `mod.Class.method.arg = v`) and builtin
+# callables registered through gin.external_configurable.  Implementation only; the accept predicate below is written
+# from the property text over the case's own description of the module / of Python's signature of the builtin
+# (inspect.signature of the REAL callable), never over Gin's registry records.
+_PATHS = ('str', 'tuple', 'text', 'text_skip', 'block', 'hook', 'dyntext')
+_SCOPES = ('', '', 's1', 's1/s2')
+
+
+def _one_verdict(info, sel, arg):
+  """the claim of the property text for a binding of `arg` on the configurable described by `info`, spelled `sel`:
+  True = must be accepted, False = must be rejected, None = the text makes no claim (positional-only names)."""
+  if info['method'] and '.' not in sel:
+    return False, 'method-named-without-its-class'
+  if arg not in info['params'] and arg not in info['posonly'] and not info['varkw']:
+    return False, 'no-such-parameter'
+  if info['allow'] and arg not in info['allow']:
+    return False, 'not-allowlisted'
+  if arg in info['deny']:
+    return False, 'denylisted'
+  if arg in info['posonly'] and not info['varkw']:
+    return None, 'positional-only-name'
+  return True, 'ok'
+
+
+def _registry_verdict(table, sel, arg):
+  """`table`: full selector -> info with 'state' in {'yes', 'maybe'} ('maybe': named by a dynamic statement that was
+  rejected, so the text does not say whether it is registered).  Returns (claim, why, full-or-None)."""
+  if sel in table and table[sel]['state'] == 'yes':
+    matches = [sel]
+  else:
+    matches = [f for f in table if f == sel or f.endswith('.' + sel)]
+  if not matches:
+    return False, 'unknown-configurable', None
+  if all(table[f]['state'] == 'yes' for f in matches):
+    if len(matches) != 1:
+      return False, 'ambiguous-selector', None
+    claim, why = _one_verdict(table[matches[0]], sel, arg)
+    return claim, why, matches[0]
+  verdicts = [_one_verdict(table[f], sel, arg) for f in matches]
+  if all(v[0] is False for v in verdicts):
+    return False, 'maybe-unregistered:' + verdicts[0][1], None
+  return None, 'possibly-unregistered', (matches[0] if len(matches) == 1 else None)
+
+
+def _snapshot(gin):
+  cfg = gin.config._CONFIG  # pylint: disable=protected-access
+  store = sorted((list(k), sorted((p, repr(v)) for p, v in d.items())) for k, d in cfg.items())
+  try:
+    text = gin.config_str()
+  except Exception as e:  # pylint: disable=broad-except
+    text = 'config_str raised %s' % type(e).__name__
+  return store, text, gin.config.config_is_locked()
+
+
+def _issue(gin, op, header='', hook_box=None):
+  path, scope, sel, arg, val = op
+  pre = scope + '/' if scope else ''
+  key = pre + sel + '.' + arg
+  if path == 'str':
+    gin.bind_parameter(key, val)
+  elif path == 'tuple':
+    gin.bind_parameter((scope, sel, arg), val)
+  elif path == 'text':
+    gin.parse_config('%s = %r' % (key, val))
+  elif path == 'text_skip':
+    gin.parse_config('%s = %r' % (key, val), skip_unknown=True)
+  elif path == 'block':
+    gin.parse_config('%s%s:\n  %s = %r\n' % (pre, sel, arg, val))
+  elif path == 'dyntext':
+    gin.parse_config('%s%s = %r\n' % (header, key, val))
+  elif path == 'hook':
+    hook_box[0] = {key: val}        # the case's one registered hook proposes this binding, this time only
+    try:
+      gin.finalize()
+    finally:
+      hook_box[0] = None
+  else:
+    raise AssertionError(path)
+
+
+def _merged(store, scope, full):
+  """the parameters the property lets Gin supply to `full` called inside `scope`: the bindings of every enclosing
+  scope, the innermost winning."""
+  parts = scope.split('/') if scope else []
+  out = {}
+  for i in range(len(parts) + 1):
+    out.update(store.get(('/'.join(parts[:i]), full), {}))
+  return out
+
+
+class _RouteEngine(Engine):
+  """shared op loop: issue every op through its API path, compare with the claim of the property text, keep an own
+  store of accepted bindings, and finally call every configurable and compare what Gin supplied with that store."""
+  model = False
+
+  def shrink(self, case):
+    for i in range(len(case['ops'])):
+      yield dict(case, ops=case['ops'][:i] + case['ops'][i + 1:])
+    for i in range(len(case.get('setup', []))):
+      yield dict(case, setup=case['setup'][:i] + case['setup'][i + 1:])
+    for i in range(len(case.get('confs', []))):
+      if len(case['confs']) > 1:
+        yield dict(case, confs=case['confs'][:i] + case['confs'][i + 1:])
+
+  def _run_ops(self, gin, case, table, store, claim_of, header=''):
+    """returns (fails, tags, nontrivial, diverged)."""
+    fails, tags, nontrivial = [], [], False
+    hook_box = [None]
+    gin.config.register_finalize_hook(lambda cfg: hook_box[0])
+    for op in case['ops']:
+      path, scope, sel, arg, val = op
+      claim, why, full, dyn_target = claim_of(op)
+      tags.append('%s:%s' % (path, why))
+      before = _snapshot(gin)
+      exc = None
+      try:
+        # a finalize that succeeded has locked the configuration: later ops are made the documented way
+        with gin.unlock_config():
+          _issue(gin, op, header, hook_box)
+      except Exception as e:  # pylint: disable=broad-except
+        exc = '%s: %s' % (type(e).__name__, str(e)[:160])
+      after = _snapshot(gin)
+      if path == 'dyntext' and dyn_target:
+        for f in dyn_target:
+          if exc is None:
+            table[f]['state'] = 'yes'
+          elif table[f]['state'] == 'no':
+            table[f]['state'] = 'maybe'
+      if exc is not None:
+        if claim is True:
+          fails.append(('valid-binding-rejected', '%r raised %s' % (op, exc)))
+        if after != before:
+          fails.append(('rejected-binding-changed-store', '%r raised %s but the configuration changed: %r -> %r' %
+                        (op, exc, before, after)))
+          return fails, tags, nontrivial, True
+        if claim is False and path != 'str':
+          nontrivial = True
+        continue
+      # no exception
+      if claim is False:
+        if path == 'text_skip' and (why == 'unknown-configurable' or why.startswith('maybe-unregistered:')):
+          if after != before:       # skip_unknown: the statement may be skipped silently, never stored
+            fails.append(('skipped-binding-changed-store', '%r: %r -> %r' % (op, before, after)))
+            return fails, tags, nontrivial, True
+          continue
+        fails.append(('invalid-binding-accepted', '%r accepted (%s)' % (op, why)))
+        return fails, tags, nontrivial, True
+      if full is None:
+        return fails, tags, nontrivial, True      # accepted where the text makes no claim and the target is unclear
+      store.setdefault((scope, full), {})[arg] = val
+      if table[full]['state'] == 'maybe':
+        table[full]['state'] = 'yes'       # it took a binding: it is registered
+      try:
+        got = gin.query_parameter((scope + '/' if scope else '') + full + '.' + arg)
+        if got != val or type(got) is not type(val):
+          fails.append(('accepted-binding-not-stored', '%r accepted, query_parameter gives %r' % (op, got)))
+      except Exception as e:  # pylint: disable=broad-except
+        fails.append(('accepted-binding-not-stored', '%r accepted, query_parameter raised %s: %s' %
+                      (op, type(e).__name__, str(e)[:120])))
+    return fails, tags, nontrivial, False
+
+
+_SIGS = [
+    {'args': [['depth', 0]], 'varkw': False},
+    {'args': [['depth', 0], ['x', 1]], 'varkw': False},
+    {'args': [['x', 5]], 'varkw': False},
+    {'args': [['size', 1], ['a', 2]], 'varkw': False},
+    {'args': [['a', 1], ['b', 2], ['depth', 3]], 'varkw': False},
+    {'args': [['a', 1]], 'varkw': True},
+    {'args': [], 'varkw': False},
+]
+_UNKNOWN_ARGS = ['zz', 'bogus', 'kw', 'args', 'kwargs', 'Depth', 'value']
+_VALS = [0, 1, 2, 7, -1, True, None, 'big', ' ']
+
+
+def _fn_src(name, sig, kind, deco, indent):
+  params = ['%s=%r' % (a, d) for a, d in sig['args']] + (['**kw'] if sig['varkw'] else [])
+  if kind != 'fn':
+    params = ['self'] + params
+  pad = ' ' * indent
+  out = []
+  if deco:
+    out.append(pad + '@gin.register')
+  out.append(pad + 'def %s(%s):' % (name, ', '.join(params)))
+  out.append(pad + '  got = dict(locals())')
+  if kind == 'fn':
+    out.append(pad + '  return got')
+  else:
+    out.append(pad + "  got.pop('self')")
+    out.append(pad + ('  self.init_got = got' if kind == 'init' else '  return got'))
+  return out
+
+
+class DynamicRegistrationBindEngine(_RouteEngine):
+  """methods, classes and functions of a module are registered by the parser (dynamic registration) -- possibly next
+  to classes registered by decorators, possibly re-registering those -- and afterwards bound through every API path
+  with every spelling: a method named without its class, or a parameter outside the signature, is rejected."""
+  name = 'dynamic-registration-binds'
+  rule = ('dynamic-registration-binds: a module (top-level or in a package, `import m` / `from p import m`) with 1-2 classes '
+          '(1-2 methods each; class registered by the parser or by decorators, then possibly re-registered by the parser) and '
+          '0-2 functions; a dynamic file of 1-4 valid statements naming methods / classes / functions; then 3-10 bindings '
+          'through string, tuple, text, text+skip_unknown, block, finalize-hook and further dynamic-file paths, spelled bare / '
+          'Class.method / module-qualified / wrong, with valid and unknown parameters, in 3 scopes; accept predicate from the '
+          'module description, configuration compared before/after every rejection, every callable called at the end. '
+          'non-trivial = a rejection through a non-string path.')
+
+  def budget(self, tier):
+    return 160 if tier == 'quick' else 4000
+
+  # ---- case description helpers
+  @staticmethod
+  def _objects(spec):
+    """objpath -> (sig, is_method, class objpath or None, registered by decorator)."""
+    out = {}
+    for f in spec['funs']:
+      out[f['name']] = (f['sig'], False, None, False)
+    for c in spec['classes']:
+      out[c['name']] = (c['init'], False, None, c['route'] == 'deco')
+      for m in c['methods']:
+        out[c['name'] + '.' + m['name']] = (m['sig'], True, c['name'], c['route'] == 'deco' and m['deco'])
+    return out
+
+  @staticmethod
+  def _root(spec):
+    return spec['name'].split('.')[-1] if spec['imp'] == 'from' else spec['name']
+
+  @staticmethod
+  def _header(spec):
+    if spec['imp'] == 'from':
+      pkg, _, leaf = spec['name'].rpartition('.')
+      imp = 'from %s import %s' % (pkg, leaf)
+    else:
+      imp = 'import ' + spec['name']
+    return 'from __gin__ import dynamic_registration\n%s\n' % imp
+
+  def _case(self, spec, setup, ops):
+    return {'mod': spec, 'setup': setup, 'ops': ops}
+
+  def corpus(self):
+    widget = {'name': 'Widget', 'route': 'dyn', 'init': _SIGS[3],
+              'methods': [{'name': 'render', 'sig': _SIGS[0], 'deco': False}, {'name': 'draw', 'sig': _SIGS[2], 'deco': False}]}
+    panel = {'name': 'Panel', 'route': 'deco', 'init': _SIGS[3],
+             'methods': [{'name': 'paint', 'sig': _SIGS[1], 'deco': True}]}
+    fun = {'name': 'fun', 'sig': _SIGS[4]}
+    cases = []
+    for name, imp in (('c11dyn', 'import'), ('c11pkg.dynm', 'from'), ('c11pkg.dynm', 'import')):
+      spec = {'name': name, 'imp': imp, 'classes': [widget, panel], 'funs': [fun]}
+      setup = [['', 'Widget.render', 'depth', 3], ['s1', 'fun', 'a', 4]]
+      # one case per API path: the method named without its class, then an unknown parameter, then the valid spelling
+      for path in _PATHS:
+        bare = 'render' if path != 'dyntext' else self._root(spec) + '.render'
+        good = 'Widget.render' if path != 'dyntext' else self._root(spec) + '.Widget.render'
+        ops = [['str', '', 'paint', 'depth', 1], [path, '', bare, 'depth', 4], [path, 's1/s2', bare, 'depth', 4],
+               [path, '', good, 'zz', 4], [path, 's1', good, 'depth', 5]]
+        cases.append(self._case(spec, setup, ops))
+        if name != 'c11dyn':
+          break
+    # the class is named by the file before / without its methods; a decorated class is re-registered by the file
+    spec = {'name': 'c11dyn', 'imp': 'import', 'classes': [widget, panel], 'funs': [fun]}
+    cases.append(self._case(spec, [['', 'Widget', 'size', 2], ['', 'Widget.draw', 'x', 1], ['', 'Panel.paint', 'x', 2]],
+                            [['tuple', '', 'draw', 'x', 9], ['text', '', 'paint', 'x', 9], ['str', '', 'render', 'depth', 9],
+                             ['block', '', 'Panel.paint', 'depth', 6], ['hook', 's1', 'draw', 'x', 9]]))
+    return cases
+
+  def gen(self, rng, tier):
+    name, imp = rng.choice([('c11dyn', 'import'), ('c11pkg.dynm', 'import'), ('c11pkg.dynm', 'from')])
+    classes = []
+    for cname in rng.sample(['Widget', 'Panel'], rng.randint(1, 2)):
+      route = 'dyn' if rng.random() < 0.7 else 'deco'
+      methods = [{'name': m, 'sig': rng.choice(_SIGS), 'deco': rng.random() < 0.7}
+                 for m in rng.sample(['render', 'draw', 'paint'], rng.randint(1, 2))]
+      classes.append({'name': cname, 'route': route, 'init': rng.choice(_SIGS), 'methods': methods})
+    funs = [{'name': f, 'sig': rng.choice(_SIGS)} for f in rng.sample(['fun', 'helper'], rng.randint(0, 2))]
+    spec = {'name': name, 'imp': imp, 'classes': classes, 'funs': funs}
+    objs = self._objects(spec)
+    paths_ = sorted(objs)
+    root = self._root(spec)
+
+    def pick_arg(sig, valid):
+      names = [a for a, _ in sig['args']]
+      if valid and (names or sig['varkw']):
+        return rng.choice(names + (['extra'] if sig['varkw'] else []))
+      return rng.choice(_UNKNOWN_ARGS + ['depth', 'x', 'a', 'size'])
+
+    setup = []
+    for _ in range(rng.randint(1, 4)):
+      o = rng.choice(paths_)
+      sig = objs[o][0]
+      if sig['args'] or sig['varkw']:
+        setup.append([rng.choice(_SCOPES), o, pick_arg(sig, True), rng.choice(_VALS)])
+    ops = []
+    for _ in range(rng.randint(3, 10)):
+      o = rng.choice(paths_)
+      sig, is_method = objs[o][0], objs[o][1]
+      path = rng.choice(_PATHS)
+      if path == 'dyntext':
+        sel = root + '.' + o if rng.random() < 0.75 else rng.choice([o, o.split('.')[-1], root + '.' + o.split('.')[-1], 'nosuch.' + o])
+      else:
+        r = rng.random()
+        if is_method and r < 0.4:
+          sel = o.split('.')[-1]                                # the method without its class
+        elif r < 0.55:
+          sel = o                                               # Class.method / Class / fun
+        elif r < 0.7:
+          sel = spec['name'] + '.' + o
+        elif r < 0.8:
+          sel = spec['name'].split('.')[-1] + '.' + o
+        elif r < 0.9:
+          sel = o.split('.')[-1]
+        else:
+          sel = rng.choice(['nosuch', 'x.' + o, spec['name'] + '.' + o.split('.')[-1], o + 's'])
+      op = [path, rng.choice(_SCOPES), sel, pick_arg(sig, rng.random() < 0.5), rng.choice(_VALS)]
+      ops.append(op)
+    return self._case(spec, setup, ops)
+
+  def impl(self, case):
+    import sys
+    import types
+    spec = case['mod']
+    gin = C.fresh_gin()
+    objs = self._objects(spec)
+    name = spec['name']
+    src = []
+    for f in spec['funs']:
+      src += _fn_src(f['name'], f['sig'], 'fn', False, 0) + ['']
+    for c in spec['classes']:
+      deco = c['route'] == 'deco'
+      if deco:
+        src.append('@gin.register')
+      src.append('class %s:' % c['name'])
+      src += _fn_src('__init__', c['init'], 'init', False, 2)
+      for m in c['methods']:
+        src += _fn_src(m['name'], m['sig'], 'method', deco and m['deco'], 2)
+      src.append('')
+    mod = types.ModuleType(name)
+    mod.__dict__['gin'] = gin
+    installed = [name]
+    sys.modules[name] = mod
+    if '.' in name:
+      pkg = types.ModuleType(name.rpartition('.')[0])
+      pkg.__path__ = []
+      setattr(pkg, name.rpartition('.')[2], mod)
+      sys.modules[pkg.__name__] = pkg
+      installed.append(pkg.__name__)
+    try:
+      exec('\n'.join(src), mod.__dict__)  # pylint: disable=exec-used
+      return self._impl(gin, case, spec, objs, mod)
+    finally:
+      for n in installed:
+        sys.modules.pop(n, None)
+
+  def _impl(self, gin, case, spec, objs, mod):
+    name, root, header = spec['name'], self._root(spec), self._header(spec)
+
+    def info(o, state):
+      sig, is_method, _, _ = objs[o]
+      return {'params': [a for a, _ in sig['args']], 'posonly': [], 'varkw': sig['varkw'], 'allow': [], 'deny': [],
+              'method': is_method, 'state': state, 'obj': o}
+
+    table = {name + '.' + o: info(o, 'yes' if objs[o][3] else 'no') for o in objs}
+    store, fails = {}, []
+    # the dynamic file: every statement is valid, so the whole file must be accepted
+    lines = []
+    for scope, o, arg, val in case['setup']:
+      lines.append('%s%s.%s.%s = %r' % (scope + '/' if scope else '', root, o, arg, val))
+    try:
+      gin.parse_config(header + '\n'.join(lines) + '\n')
+    except Exception as e:  # pylint: disable=broad-except
+      return {'obs': T('Done'), 'nontrivial': False, 'tags': ['setup-rejected'],
+              'fails': [('valid-binding-rejected', 'dynamic file %r raised %s: %s' % (lines, type(e).__name__, str(e)[:200]))]}
+    for scope, o, arg, val in case['setup']:
+      store.setdefault((scope, name + '.' + o), {})[arg] = val
+      for f in [o] + ([objs[o][2]] if objs[o][2] else []):
+        table[name + '.' + f]['state'] = 'yes'
+
+    def visible():
+      return {f: i for f, i in table.items() if i['state'] != 'no'}
+
+    def claim_of(op):
+      path, _, sel, arg, _ = op
+      if path != 'dyntext':
+        claim, why, full = _registry_verdict(visible(), sel, arg)
+        return claim, why, full, None
+      # inside a dynamic file a name is whatever the file's own import provides
+      if not sel.startswith(root + '.') or sel[len(root) + 1:] not in objs:
+        return False, 'name-not-provided-by-imports', None, None
+      o = sel[len(root) + 1:]
+      claim, why = _one_verdict(info(o, 'yes'), sel, arg)
+      target = [name + '.' + f for f in [o] + ([objs[o][2]] if objs[o][2] else [])]
+      return claim, why, name + '.' + o, target
+
+    f2, tags, nontrivial, diverged = self._run_ops(gin, case, table, store, claim_of, header)
+    fails += f2
+    if not diverged:
+      fails += self._calls(gin, spec, objs, mod, table, store)
+    return {'obs': T('Done'), 'fails': fails[:3], 'nontrivial': nontrivial, 'tags': tags}
+
+  def _calls(self, gin, spec, objs, mod, table, store):
+    """every function / constructor / method receives exactly the accepted bindings made through its own name."""
+    fails = []
+    name = spec['name']
+    scopes = sorted({s for s, _ in store} | {''})
+
+    def expect(o, scope):
+      sig = objs[o][0]
+      want = {a: d for a, d in sig['args']}
+      bound = _merged(store, scope, name + '.' + o) if table[name + '.' + o]['state'] == 'yes' else {}
+      kw = {}
+      for p, v in bound.items():
+        if p in want:
+          want[p] = v
+        else:
+          kw[p] = v
+      if sig['varkw']:
+        want['kw'] = kw
+      return want
+
+    def check(o, scope, got):
+      want = expect(o, scope)
+      if got != want or repr(sorted(got.items())) != repr(sorted(want.items())):
+        fails.append(('non-configurable-parameter-injected',
+                      '%s.%s called in scope %r received %r, the accepted bindings give %r' % (name, o, scope, got, want)))
+
+    for scope in scopes:
+      try:
+        with gin.config_scope(scope or None):
+          for f in spec['funs']:
+            if table[name + '.' + f['name']]['state'] == 'yes':
+              check(f['name'], scope, gin.get_configurable(getattr(mod, f['name']))())
+          for c in spec['classes']:
+            if table[name + '.' + c['name']]['state'] != 'yes':
+              continue
+            inst = gin.get_configurable(getattr(mod, c['name']))()
+            check(c['name'], scope, inst.init_got)
+            for m in c['methods']:
+              if table[name + '.' + c['name'] + '.' + m['name']]['state'] != 'maybe':
+                check(c['name'] + '.' + m['name'], scope, getattr(inst, m['name'])())
+      except Exception as e:  # pylint: disable=broad-except
+        fails.append(('call-raised', 'scope %r: %s: %s' % (scope, type(e).__name__, str(e)[:200])))
+    return fails
+
+
+def _builtin_pool():
+  import math
+  return {
+      'sorted': (sorted, [[3, 1, 2]]),
+      'round': (round, [2.26]),
+      'sum': (sum, [[1, 2]]),
+      'pow': (pow, [2, 5]),
+      'isclose': (math.isclose, [1.0, 1.05]),
+      'split': ('a b,c b'.split, []),
+      'from_bytes': (int.from_bytes, [b'\x01\x02']),
+      'divmod': (divmod, [7, 2]),
+      'len': (len, [[1, 2]]),
+      'abs': (abs, [-3]),
+      'int_add': ((5).__add__, [2]),
+  }
+
+
+_BUILTIN_UNKNOWN = ['bogus', 'zz', 'args', 'kwargs', 'Reverse', 'digits', 'value', 'default']
+_BUILTIN_VALS = [0, 1, 2, -1, True, None, 'big', 'little', ' ', 0.5]
+
+
+def _py_signature(fn):
+  """(keyword-acceptable names, positional-only names, **kwargs?, positional order) from Python itself."""
+  import inspect
+  ps = list(inspect.signature(fn).parameters.values())
+  kw = [p.name for p in ps if p.kind in (p.POSITIONAL_OR_KEYWORD, p.KEYWORD_ONLY)]
+  po = [p.name for p in ps if p.kind == p.POSITIONAL_ONLY]
+  order = [p.name for p in ps if p.kind in (p.POSITIONAL_ONLY, p.POSITIONAL_OR_KEYWORD)]
+  return kw, po, any(p.kind == p.VAR_KEYWORD for p in ps), order
+
+
+class BuiltinCallableBindEngine(_RouteEngine):
+  """builtin callables (C functions, bound builtin methods, slot wrappers) registered with external_configurable:
+  Gin wraps them in a (*args, **kwargs) shim, the parameters that can be bound are still those of the builtin's own
+  signature (and of its allowlist / denylist)."""
+  name = 'builtin-callable-binds'
+  rule = ('builtin-callable-binds: 1-3 of 11 builtin callables (C functions, bound builtin methods, builtin classmethod, slot '
+          'wrapper) registered with external_configurable with / without module, allowlist, denylist; 3-10 bindings through '
+          'string, tuple, text, text+skip_unknown, block and finalize-hook paths with parameter names from {in the builtin\'s '
+          'own signature, unknown, listed, unlisted}; accept predicate from inspect.signature of the real builtin; every '
+          'builtin finally called and compared with the real builtin given exactly the accepted bindings.')
+
+  def budget(self, tier):
+    return 160 if tier == 'quick' else 4000
+
+  def corpus(self):
+    confs = [{'fn': 'sorted', 'name': 'sorted_fn', 'module': '', 'allow': [], 'deny': []},
+             {'fn': 'round', 'name': 'round_fn', 'module': 'c11b', 'allow': [], 'deny': []},
+             {'fn': 'sum', 'name': 'sum_fn', 'module': '', 'allow': ['start'], 'deny': []},
+             {'fn': 'isclose', 'name': 'close_fn', 'module': 'x.c11b', 'allow': [], 'deny': ['abs_tol']}]
+    cases = []
+    for path in _PATHS[:-1]:
+      cases.append({'confs': confs, 'ops': [
+          ['str', '', 'sorted_fn', 'reverse', True], ['text', 's1', 'round_fn', 'ndigits', 1],
+          [path, '', 'sorted_fn', 'bogus', 1], [path, 's1/s2', 'c11b.round_fn', 'digits', 1],
+          [path, '', 'sum_fn', 'kwargs', 1], [path, '', 'close_fn', 'abs_tol', 1], [path, 's1', 'close_fn', 'rel_tol', 0.5]]})
+    return cases
+
+  def gen(self, rng, tier):
+    pool = _builtin_pool()
+    confs = []
+    for i, fn in enumerate(rng.sample(sorted(pool), rng.randint(1, 3))):
+      kw, _, _, _ = _py_signature(pool[fn][0])
+      allow, deny = [], []
+      r = rng.random()
+      if kw and r < 0.25:
+        allow = rng.sample(kw, rng.randint(1, len(kw)))
+      elif kw and r < 0.5:
+        deny = rng.sample(kw, rng.randint(1, len(kw)))
+      confs.append({'fn': fn, 'name': rng.choice([fn + '_fn', 'b%d' % i, fn]),
+                    'module': rng.choice(['', '', 'c11b', 'x.c11b', 'y.c11b']), 'allow': allow, 'deny': deny})
+    ops = []
+    for _ in range(rng.randint(3, 10)):
+      c = rng.choice(confs)
+      kw, po, _, _ = _py_signature(pool[c['fn']][0])
+      r = rng.random()
+      if r < 0.4 and kw:
+        arg = rng.choice(kw)
+      elif r < 0.6 and (c['allow'] or c['deny']):
+        arg = rng.choice(c['allow'] or c['deny'])
+      else:
+        arg = rng.choice(_BUILTIN_UNKNOWN)
+      full = (c['module'] + '.' if c['module'] else '') + c['name']
+      parts = full.split('.')
+      r = rng.random()
+      if r < 0.8:
+        sel = '.'.join(parts[rng.randrange(len(parts)):])
+      else:
+        sel = rng.choice(['nosuch', 'z.' + c['name'], c['name'] + '_', 'builtins_' + c['fn']])
+      path = rng.choice(_PATHS[:-1])
+      op = [path, rng.choice(_SCOPES), sel, arg, rng.choice(_BUILTIN_VALS)]
+      ops.append(op)
+    return {'confs': confs, 'ops': ops}
+
+  def impl(self, case):
+    gin = C.fresh_gin()
+    pool = _builtin_pool()
+    table, wrappers, store = {}, {}, {}
+    for c in case['confs']:
+      fn, _ = pool[c['fn']]
+      kw, po, varkw, _ = _py_signature(fn)
+      full = (c['module'] + '.' if c['module'] else '') + c['name']
+      kwargs = {}
+      if c['module']:
+        kwargs['module'] = c['module']
+      if c['allow']:
+        kwargs['allowlist'] = list(c['allow'])
+      if c['deny']:
+        kwargs['denylist'] = list(c['deny'])
+      try:
+        wrappers[full] = gin.external_configurable(fn, c['name'], **kwargs)
+      except Exception as e:  # pylint: disable=broad-except
+        return {'obs': T('Done'), 'nontrivial': False, 'tags': ['registration-rejected'],
+                'fails': [('valid-registration-rejected', '%r: %s: %s' % (c, type(e).__name__, str(e)[:200]))]}
+      table[full] = {'params': kw, 'posonly': po, 'varkw': varkw, 'allow': c['allow'], 'deny': c['deny'],
+                     'method': False, 'state': 'yes', 'conf': c}
+
+    def claim_of(op):
+      claim, why, full = _registry_verdict(table, op[2], op[3])
+      return claim, why, full, None
+
+    fails, tags, nontrivial, diverged = self._run_ops(gin, case, table, store, claim_of)
+    if not diverged:
+      # every call behaves as the builtin called with exactly the accepted bindings (a name the builtin does not
+      # have, had it been injected, makes the call raise TypeError)
+      def outcome(f, args, kwargs):
+        try:
+          return ['ok', repr(f(*args, **kwargs))]
+        except Exception as e:  # pylint: disable=broad-except
+          return ['err', type(e).__name__]
+      for scope in sorted({s for s, _ in store} | {''}):
+        for full, info in table.items():
+          fn, args = pool[info['conf']['fn']]
+          order = _py_signature(fn)[3]
+          if any(p in info['posonly'] for sc in store.values() for p in sc):
+            continue      # a positional-only name was bound somewhere: the text makes no claim about such calls
+          bound = _merged(store, scope, full)
+          if any(p in order[:len(args)] for p in bound):
+            continue      # caller's positional value against a binding of the same parameter: C01's subject, not C11's
+          want = outcome(fn, args, bound)
+          with gin.config_scope(scope or None):
+            got = outcome(wrappers[full], args, {})
+          if got != want:
+            fails.append(('non-configurable-parameter-injected',
+                          '%s%r in scope %r gives %r; the builtin with the accepted bindings %r gives %r' %
+                          (full, tuple(args), scope, got, bound, want)))
+    return {'obs': T('Done'), 'fails': fails[:3], 'nontrivial': nontrivial, 'tags': tags}
+
+
+ENGINES = [BindEngine(), MethodRenameEngine(), DynamicRegistrationBindEngine(), BuiltinCallableBindEngine()]
